@@ -1443,6 +1443,41 @@ func c04Leafs(r *fw.Run, p *fw.Program) {
 			}
 		}
 	}
+	// the reader cut in FillGaps stays the gap's bits: nothing in pkg/decode (hand-written part) assigns
+	// the Actual of a scalar.BitBuf afterwards (decode()'s walk that makes ranges absolute must not
+	// re-cut gap readers: at that point Range.Start is still relative to the sub-range)
+	{
+		later, laterPos := "", ""
+		for _, f := range p.FqFunctions() {
+			if pkgRel(f) != "pkg/decode" || strings.HasSuffix(p.Rel(f.Pos()), "_gen.go") || strings.Contains(p.Rel(f.Pos()), "_gen.go:") {
+				continue
+			}
+			fw.EachInstr(f, func(ins ssa.Instruction) {
+				st, ok := ins.(*ssa.Store)
+				if !ok {
+					return
+				}
+				fa, ok := st.Addr.(*ssa.FieldAddr)
+				if !ok || !c04IsPtrTo(fa.X.Type(), bbT) {
+					return
+				}
+				if _, isAlloc := fa.X.(*ssa.Alloc); isAlloc {
+					return // initialisation of a fresh literal
+				}
+				stt, _ := bbT.Underlying().(*types.Struct)
+				if stt != nil && stt.Field(fa.Field).Name() == "Actual" && c04RecutAfterRebase(st) {
+					return // re-cut from the already absolute range start: same bits
+				}
+				if stt != nil && stt.Field(fa.Field).Name() == "Actual" && later == "" {
+					later, laterPos = fw.ShortFn(f), p.Rel(st.Pos())
+				}
+			})
+		}
+		if laterPos == "" {
+			laterPos = apos
+		}
+		ru.Check(later == "", "FillGaps:gap-value:actual-final", laterPos, "no later assignment of a BitBuf's Actual in pkg/decode", later+" replaces the bits (Actual) of an existing scalar.BitBuf: a gap's content is then no longer the reader FillGaps cut for its range")
+	}
 	ru.Check(flagOK, "FillGaps:gap-value:flag", apos, "Flags: scalar.FlagGap", "gap value is not flagged scalar.FlagGap: it is indistinguishable from a decoded field")
 	// ---- bitiox.Range
 	sb := p.Fn("pkg/bitio.NewSectionReader")
@@ -1793,4 +1828,49 @@ func c04Roots(r *fw.Run, p *fw.Program) {
 	}
 	ru.Check(okSkip, "Walk:one-root-skip", skipPos, "a sub-root other than the start value is skipped (with its subtree) before the callback runs, exactly when OneRoot is set",
 		"(*Value).Walk does not skip values with IsRoot (other than the start value) when OneRoot is set, before calling the callback: fields of other buffers enter this buffer's gap computation")
+}
+
+// c04RecutAfterRebase: the stored reader is cut by bitiox.Range / bitio.NewSectionReader at a range
+// start that is loaded after the store which made that start absolute (same access path, the store
+// precedes the load on all paths).
+func c04RecutAfterRebase(st *ssa.Store) bool {
+	v := st.Val
+	for i := 0; i < 3; i++ {
+		switch x := v.(type) {
+		case *ssa.MakeInterface:
+			v = x.X
+		case *ssa.ChangeInterface:
+			v = x.X
+		case *ssa.Extract:
+			v = x.Tuple
+		}
+	}
+	call, ok := v.(*ssa.Call)
+	if !ok || call.Common().StaticCallee() == nil || len(call.Common().Args) < 2 {
+		return false
+	}
+	switch call.Common().StaticCallee().Name() {
+	case "Range", "NewSectionReader":
+	default:
+		return false
+	}
+	ld, ok := call.Common().Args[1].(*ssa.UnOp)
+	if !ok || ld.Op != token.MUL {
+		return false
+	}
+	path, ok := fw.AccessPath(ld.X)
+	if !ok || !strings.HasSuffix(path, "Start") {
+		return false
+	}
+	found := false
+	fw.EachInstr(st.Parent(), func(ins ssa.Instruction) {
+		s2, ok := ins.(*ssa.Store)
+		if !ok {
+			return
+		}
+		if p2, ok := fw.AccessPath(s2.Addr); ok && p2 == path && precedesOnAllPaths(s2, ld) {
+			found = true
+		}
+	})
+	return found
 }
